@@ -249,6 +249,84 @@ func zzH_C01_bigint() {
 	}
 }
 
+// A list and its elements: the streaming decoder (List, Raw per element, ListEnd), the raw
+// element counter and the list iterator see the same element boundaries and accept the same
+// lists; the elements concatenate to the list content.
+func zzH_C01_list_walk() {
+	b := zzNondetBytes(zzBound("LN"))
+	content, rest, lerr := SplitList(b)
+	s, _ := zzStream(b)
+	_, serr := s.List()
+	zzAssert((lerr == nil) == (serr == nil), "raw and streaming decoder accept the same list headers")
+	if lerr != nil {
+		zzReach("not-a-list")
+		return
+	}
+	_ = rest
+	// streaming walk
+	var elems [][]byte
+	walkOK := true
+	for s.MoreDataInList() {
+		// strings are read as values (Bytes validates canonicality); lists are taken whole (Raw
+		// deliberately does not look inside: "the decoder does not verify whether the content of
+		// RawValues is valid RLP"), which is also all CountValues and the iterator look at
+		kind, _, err := s.Kind()
+		var raw []byte
+		if err == nil {
+			if kind == List {
+				raw, err = s.Raw()
+			} else {
+				var v []byte
+				v, err = s.Bytes()
+				raw = zzEncBytes(v)
+			}
+		}
+		if err != nil {
+			walkOK = false
+			break
+		}
+		elems = append(elems, raw)
+		if len(elems) > zzBound("LN") {
+			zzAssert(false, "more elements than bytes")
+		}
+	}
+	if walkOK {
+		zzAssert(s.ListEnd() == nil, "after the last element the list ends cleanly")
+	}
+	// raw counter
+	cnt, cerr := CountValues(content)
+	zzAssert((cerr == nil) == walkOK, "CountValues accepts exactly the lists whose elements the stream accepts")
+	// iterator
+	it, ierr := NewListIterator(RawValue(b))
+	zzAssert(ierr == nil, "the iterator accepts the list header")
+	k := 0
+	for it.Next() {
+		if it.Err() != nil {
+			break
+		}
+		if k < len(elems) {
+			zzAssert(zzBytesEq(it.Value(), elems[k]), "iterator and stream agree on the element")
+		}
+		k++
+	}
+	zzAssert((it.Err() == nil) == walkOK, "the iterator fails exactly on the lists the stream rejects")
+	if walkOK {
+		zzAssert(cnt == len(elems) && k == len(elems), "element counts agree")
+		var cat []byte
+		for _, e := range elems {
+			cat = append(cat, e...)
+		}
+		zzAssert(zzBytesEq(cat, content), "the elements concatenate to the list content")
+		if len(elems) >= 2 {
+			zzReach("several")
+		} else {
+			zzReach("short")
+		}
+	} else {
+		zzReach("bad-element")
+	}
+}
+
 func zzH_C01_u256_forward() {
 	z := uint256.Int{zzNondetU64(), zzNondetU64(), zzNondetU64(), zzNondetU64()}
 	w := new(encBuffer)
